@@ -377,7 +377,7 @@ def dep_escape(name: str, rnd: random.Random) -> str:
         elif ch == '$':
             nxt = name[j + 1] if j + 1 < len(name) else ''
             out += '$' if (nxt.isalnum() and rnd.random() < 0.5) else '$$'
-        elif ch.isalpha() and rnd.random() < 0.04:
+        elif ch.isalpha() and rnd.random() < 0.04 and not out.endswith('$'):
             out += '\\' + ch          # pinned: "F\iles" reads as "Files"
         else:
             out += ch
